@@ -11,6 +11,7 @@ import (
 	"encoding/binary"
 	"fmt"
 	"net"
+	"strings"
 	"sync"
 	"testing"
 	"time"
@@ -56,6 +57,11 @@ type Scenario struct {
 	// PerSession (source stream): the application writes every packet with ServerSession.WritePacketRTP
 	// / WritePacketRTCP to each session that is playing, instead of through the ServerStream.
 	PerSession bool `json:"per_session,omitempty"`
+	// AVPReader: next to the secure readers a scripted reader sets media 0 up with the plain profile
+	// over the TLS connection (RTP/AVP/TCP, allowed: the frames travel inside TLS). What the secure
+	// readers get must not change; the server's own above-TLS writes are not scanned in such runs
+	// (the frames for that reader are in clear there by design).
+	AVPReader bool `json:"avp_reader,omitempty"`
 	Case       int  `json:"case,omitempty"` // downgrade case
 }
 
@@ -94,6 +100,9 @@ func gen(seed uint64, tier string) Scenario {
 	sc.StartSeq = uint16(65536 - r.Range(1, sc.Packets))
 	if r.Bool(0.2) {
 		sc.StartSeq = uint16(r.Intn(65536))
+	}
+	if x := core.HS(seed, "c17.avpreader", "", 0); sc.Source == "stream" && x%100 < 20 {
+		sc.AVPReader = true
 	}
 	// per-session writer (hash-derived so that no other choice moves); no wrap there: every
 	// session keeps its own roll-over counter from the packets it is given
@@ -162,7 +171,7 @@ func run(t *testing.T, sc Scenario) *core.Result {
 	var summary map[string]any
 	res := sys.Run(t, opts, func(w *sys.World) {
 		w.ProbeInit("roc_advanced_during_run", "late_joiner_after_wrap", "tampered_rejected", "packets_delivered", "udp_reader", "tcp_reader", "publisher_source",
-			"rtcp_app_delivered", "multi_format_media", "wire_bytes_scanned", "srtp_wrap_before_first_packet_waived")
+			"rtcp_app_delivered", "multi_format_media", "plain_profile_reader_inside_tls", "plain_profile_reader_playing", "wire_bytes_scanned", "srtp_wrap_before_first_packet_waived")
 		srvNode := w.Net.Node("srv", "10.0.0.1")
 		h := sys.NewHandler(w)
 		srv := &gortsplib.Server{RTSPAddress: "10.0.0.1:8554", UDPRTPAddress: "10.0.0.1:8000", UDPRTCPAddress: "10.0.0.1:8001", Handler: h,
@@ -196,6 +205,9 @@ func run(t *testing.T, sc Scenario) *core.Result {
 		aboveTLS := func(node, dir string, data []byte) {
 			if node == "pub" && sc.PubAVP {
 				return // plain profile inside TLS: not a secure-profile session
+			}
+			if sc.AVPReader && (node == "srv" || node == "avp") {
+				return // the frames for the plain-profile reader are in clear above TLS by design
 			}
 			if dir == "write" {
 				// RTSP messages and interleaved frames as written above TLS: SRTP must already protect the payload
@@ -342,7 +354,13 @@ func run(t *testing.T, sc Scenario) *core.Result {
 						wmu.Unlock()
 						if sc.Source == "stream" && sc.PerSession {
 							for _, ss := range playingSessions(h) {
-								ss.WritePacketRTP(medias[mi], pkt) //nolint:errcheck
+								// (only medias the session has set up: writing to another one is the
+								// caller's mistake and dereferences nil)
+								for _, sm := range ss.Medias() {
+									if sm == medias[mi] {
+										ss.WritePacketRTP(medias[mi], pkt) //nolint:errcheck
+									}
+								}
 							}
 							setRet(k, c)
 						} else if sc.Source == "stream" {
@@ -362,7 +380,11 @@ func run(t *testing.T, sc Scenario) *core.Result {
 					app := &rtcp.ApplicationDefined{SSRC: 0x1234, Name: "VRIF", Data: mk}
 					if sc.Source == "stream" && sc.PerSession {
 						for _, ss := range playingSessions(h) {
-							ss.WritePacketRTCP(desc.Medias[0], app) //nolint:errcheck
+							for _, sm := range ss.Medias() {
+								if sm == desc.Medias[0] {
+									ss.WritePacketRTCP(desc.Medias[0], app) //nolint:errcheck
+								}
+							}
 						}
 					} else if sc.Source == "stream" {
 						stream.WritePacketRTCP(desc.Medias[0], app) //nolint:errcheck
@@ -524,6 +546,57 @@ func run(t *testing.T, sc Scenario) *core.Result {
 				}
 				w.WaitDrivers("writer")
 				w.Settle(func() int { rs.mu.Lock(); defer rs.mu.Unlock(); return rs.n }, 4*us(sc.Net.LatMaxUS)+2*us(sc.Net.UDPJitUS)+100*time.Millisecond)
+			})
+		}
+
+		if sc.AVPReader {
+			w.Probe("plain_profile_reader_inside_tls")
+			avpNode := w.Net.Node("avp", "10.0.0.40")
+			names = append(names, "avp")
+			w.Go("avp", func() {
+				<-streamReady
+				if w.Failed() {
+					return
+				}
+				ctx, cancel := context.WithTimeout(context.Background(), 10*time.Second)
+				nc, err := avpNode.DialContext(ctx, "tcp", "10.0.0.1:8554")
+				cancel()
+				if err != nil {
+					return
+				}
+				tc := tls.Client(nc, sys.ClientTLSConfig())
+				if err := tc.Handshake(); err != nil {
+					nc.Close()
+					return
+				}
+				rc := peers.NewRawConn(tc)
+				defer rc.Close()
+				u, _ := base.ParseURL("rtsps://10.0.0.1:8554/stream/trackID=0")
+				rc.Send(&base.Request{Method: base.Setup, URL: u, Header: base.Header{"Transport": base.HeaderValue{"RTP/AVP/TCP;unicast;interleaved=0-1"}}}) //nolint:errcheck
+				res, err := rc.ReadResponse(10 * time.Second)
+				if err != nil || res.StatusCode != base.StatusOK {
+					w.Log.Add("avp", "setup.refused", "%v", err)
+					return
+				}
+				pu, _ := base.ParseURL("rtsps://10.0.0.1:8554/stream")
+				sid := ""
+				if v := res.Header["Session"]; len(v) > 0 {
+					sid = strings.Split(v[0], ";")[0]
+				}
+				rc.Send(&base.Request{Method: base.Play, URL: pu, Header: base.Header{"Session": base.HeaderValue{sid}}}) //nolint:errcheck
+				if res, err = rc.ReadResponse(10 * time.Second); err != nil || res.StatusCode != base.StatusOK {
+					w.Log.Add("avp", "play.refused", "%v", err)
+					return
+				}
+				w.Probe("plain_profile_reader_playing")
+				// drain until the stream is over
+				end := time.Now().Add(time.Duration(sc.Packets*sc.IntUS)*time.Microsecond + 500*time.Millisecond)
+				for time.Now().Before(end) {
+					tc.SetReadDeadline(end)
+					if _, err := rc.C.Read(); err != nil {
+						return
+					}
+				}
 			})
 		}
 
